@@ -18,8 +18,7 @@ Proof.
   - assert (param_type (mkSig (pre ++ []) var) k = var) as ->.
     { unfold param_type. cbn [sig_inputs sig_variadic]. rewrite app_nil_r.
       specialize (Hk2 eq_refl). destruct (nth_error pre k) eqn:E; [|reflexivity].
-      apply nth_error_Some' in E || idtac. exfalso.
-      assert (nth_error pre k <> None) by congruence. apply nth_error_Some in H. lia. }
+      exfalso. assert (nth_error pre k <> None) as Hn by congruence. apply nth_error_Some in Hn. lia. }
     destruct var as [t|].
     + unfold validate_arg. destruct (is_valid t v); [|reflexivity]. cbn [bind].
       replace (Z.of_nat k + 1) with (Z.of_nat (S k)) by lia.
@@ -74,14 +73,16 @@ Lemma validate_ok_iff sg args off :
 Proof.
   rewrite validate_decision. unfold validate_spec.
   destruct (zlen args <? zlen (sig_inputs sg)) eqn:E1.
-  - split; [discriminate|]. intros (H & _ & _). lia.
-  - destruct (sig_variadic sg) as [t|] eqn:Ev.
-    + destruct (first_bad sg args 0) as [[[k t'] v]|]; split; try discriminate; try (intros (_ & _ & H); discriminate).
-      intros _. repeat split; try lia. discriminate.
-    + destruct (zlen (sig_inputs sg) <? zlen args) eqn:E2.
-      * split; [discriminate|]. intros (_ & H & _). specialize (H eq_refl). lia.
-      * destruct (first_bad sg args 0) as [[[k t'] v]|]; split; try discriminate; try (intros (_ & _ & H); discriminate).
-        intros _. repeat split; lia.
+  { split; [discriminate|]. intros (H & _ & _). lia. }
+  destruct (sig_variadic sg) as [t|] eqn:Ev.
+  { destruct (first_bad sg args 0) as [[[k t'] v]|] eqn:Ef.
+    - split; [discriminate|]. intros (_ & _ & H). discriminate.
+    - split; [|reflexivity]. intros _. split; [lia|]. split; [discriminate|reflexivity]. }
+  destruct (zlen (sig_inputs sg) <? zlen args) eqn:E2.
+  { split; [discriminate|]. intros (_ & H & _). specialize (H eq_refl). lia. }
+  destruct (first_bad sg args 0) as [[[k t'] v]|] eqn:Ef.
+  - split; [discriminate|]. intros (_ & _ & H). discriminate.
+  - split; [|reflexivity]. intros _. split; [lia|]. split; [intros _; lia|reflexivity].
 Qed.
 
 (** Every builtin validates before doing anything else: a signature error of the call is exactly [validate]'s. *)
